@@ -228,3 +228,109 @@ func TestGateAttack(t *testing.T) {
 	}
 	writeJSON(t, filepath.Join(outDir(t), "attack.json"), J{"scenarios": trace, "second_caller_got_into_the_window": feasible})
 }
+
+// gateStrategy parks the first SetLimit call (inside the limiter's lock on this tree).
+type gateStrategy struct {
+	core.Strategy
+	mu     sync.Mutex
+	armed  bool
+	parked chan struct{}
+	resume chan struct{}
+}
+
+func (g *gateStrategy) SetLimit(v int) {
+	g.mu.Lock()
+	first := g.armed
+	g.armed = false
+	g.mu.Unlock()
+	if first {
+		close(g.parked)
+		<-g.resume
+	}
+	g.Strategy.SetLimit(v)
+}
+
+// TestEnforceAttack realises, in real time, the interleaving in which two window-closing completions race
+// for the enforcement update (C05 under concurrency): completion A has closed a window and is parked on
+// its way into strategy.SetLimit(e1); the harness then tries to drive a whole further window through the
+// limiter (12 acquire + complete). On a tree where the update runs under the limiter's lock those calls
+// cannot proceed and nothing happens until A is resumed; where they can, completion B installs e2 and A's
+// stale e1 lands last. Once everything is quiet the enforced limit must equal max(1, estimate).
+func TestEnforceAttack(t *testing.T) {
+	w := newNdWriter(t, filepath.Join(outDir(t), "enforce_trace.ndjson"))
+	defer w.close()
+	wait := 40 * time.Millisecond
+	if thorough() {
+		wait = 250 * time.Millisecond
+	}
+	trace := 0
+	overtook := 0
+	for _, strat := range []string{"simple", "precise", "lookup"} {
+		for rep := 0; rep < 3; rep++ {
+			sl := &ScriptedLimit{est: 6, script: []int{4 + rep, 9, 2}}
+			var inner core.Strategy
+			var limitOf func() int
+			var psut *partSUT
+			switch strat {
+			case "simple":
+				x := strategy.NewSimpleStrategy(3)
+				inner, limitOf = x, x.GetLimit
+			case "precise":
+				x := strategy.NewPreciseStrategy(3)
+				inner, limitOf = x, x.GetLimit
+			default:
+				p, err := newPartSUT(partCfg{Kind: "lookup", Den: 16, Limit: 6, Objs: map[string]partObjCfg{"p0": {Name: "a", Num: 8, Match: []string{"a"}, Built: 1}}, Init: []string{"p0"},
+					Variant: map[string]string{"unknown": "contract", "add": "contract"}})
+				if err != nil {
+					t.Fatal(err)
+				}
+				psut = p
+				inner = p.strat()
+				limitOf = func() int { l, _ := p.totals(); return l }
+			}
+			gs := &gateStrategy{Strategy: inner, parked: make(chan struct{}), resume: make(chan struct{})}
+			dl, err := limiter.NewDefaultLimiter(sl, 1, 1, 0, 10, gs, nil, core.EmptyMetricRegistryInstance)
+			if err != nil {
+				t.Fatal(err)
+			}
+			gs.mu.Lock()
+			gs.armed = true // the constructor's own SetLimit is over: park the next one
+			gs.mu.Unlock()
+			ctx := keyCtx("lookup", "a")
+			cycle := func(n int) {
+				for i := 0; i < n; i++ {
+					l, ok := dl.Acquire(ctx)
+					if !ok {
+						return
+					}
+					time.Sleep(20 * time.Microsecond)
+					l.OnSuccess()
+				}
+			}
+			doneA := make(chan struct{})
+			go func() { cycle(12); close(doneA) }()
+			select {
+			case <-gs.parked:
+			case <-time.After(2 * time.Second):
+				t.Fatalf("%s: no window was closed", strat)
+			}
+			doneB := make(chan struct{})
+			go func() { cycle(14); close(doneB) }()
+			select {
+			case <-doneB:
+				overtook++
+			case <-time.After(wait):
+			}
+			close(gs.resume)
+			<-doneA
+			<-doneB
+			bl := J{}
+			if psut != nil {
+				bl["p0"] = psut.objLimit("p0")
+			}
+			w.write(J{"ev": "Quiet", "trace": trace, "strat": strat, "post": J{"limit": limitOf(), "est": sl.EstimatedLimit(), "bl": bl, "samples": len(sl.Samples)}})
+			trace++
+		}
+	}
+	writeJSON(t, filepath.Join(outDir(t), "enforce.json"), J{"scenarios": trace, "second_update_overtook_the_parked_one": overtook})
+}
